@@ -44,7 +44,7 @@ fn spec(tier: Tier) -> CheckSpec {
 pub fn boundary_set(tier: Tier) -> Vec<f64> {
 	let mut d: Vec<f64> = Vec::new();
 	let ulp_up = |x: f64| f64::from_bits(x.to_bits() + 1);
-	let ulp_dn = |x: f64| f64::from_bits(x.to_bits() - 1);
+	let ulp_dn = |x: f64| f64::from_bits(x.to_bits().saturating_sub(1));
 	let base: Vec<f64> = vec![
 		0.0,
 		5e-324,
